@@ -1077,22 +1077,6 @@ func (a *APK) cachedPackage(ctx context.Context, pkg InstallablePackage, cacheDi
 
 	exp.Size += cf.Size()
 
-	sig := filepath.Join(cacheDir, pkgHexSum+".sig.tar.gz")
-	sf, err := os.Stat(sig)
-	if err == nil {
-		exp.SignatureFile = sig
-		exp.Signed = true
-		exp.Size += sf.Size()
-		exp.SignatureSize = sf.Size()
-		signatureData, err := os.ReadFile(sig)
-		if err != nil {
-			return nil, err
-		}
-		signatureHash := sha1.Sum(signatureData) //nolint:gosec // this is what apk tools is using
-		exp.SignatureHash = signatureHash[:]
-	}
-	verifhook.Point("hit.probe " + cacheDir)
-
 	f, err := os.Open(ctl)
 	if err != nil {
 		return nil, err
@@ -1112,6 +1096,27 @@ func (a *APK) cachedPackage(ctx context.Context, pkg InstallablePackage, cacheDi
 	exp.PackageFile = dat
 	exp.PackageSize = df.Size()
 	exp.Size += df.Size()
+
+	// Look for the signature section only now that the data section was found. cachePackage advertises the
+	// signature before the data section, so a package whose data section is visible has its signature in
+	// place if it has one. Looking for it in the same order as cachePackage writes would let a concurrent
+	// cachePackage create both entries between the two lookups: a hit without the signature, and the
+	// package would be installed as an unsigned one (Signed false, Size without the signature section).
+	verifhook.Point("hit.probe " + cacheDir)
+	sig := filepath.Join(cacheDir, pkgHexSum+".sig.tar.gz")
+	sf, err := os.Stat(sig)
+	if err == nil {
+		exp.SignatureFile = sig
+		exp.Signed = true
+		exp.Size += sf.Size()
+		exp.SignatureSize = sf.Size()
+		signatureData, err := os.ReadFile(sig)
+		if err != nil {
+			return nil, err
+		}
+		signatureHash := sha1.Sum(signatureData) //nolint:gosec // this is what apk tools is using
+		exp.SignatureHash = signatureHash[:]
+	}
 
 	exp.PackageHash, err = hex.DecodeString(datahash)
 	if err != nil {
